@@ -4,6 +4,7 @@ usage: pydrv_compile.py <input_dir> <out_dir> <scope> <start_year> <until_year> 
   flags: arduino  -> also write the C++ tables (out_dir/arduino)
          python   -> also write the Python tables (out_dir/python)
          pieces   -> evaluate every emitted zone with ZoneSpecifier over [start, until) into run-length pieces
+         warm     -> compile the other scope first in the same process (in memory only), then proceed
          opts     -> evaluate with all 8 ZoneSpecifier option combinations (C04) instead of the default only
 Writes out_dir/result.json.
 """
@@ -86,6 +87,21 @@ def main():
     os.makedirs(out_dir, exist_ok=True)
     res = {'scope': scope, 'start_year': start_year, 'until_year': until_year}
     t0 = time.time()
+    if 'warm' in flags:
+        # the same process has already compiled something else (the other scope): nothing may carry over from it
+        ex0 = Extractor(input_dir)
+        ex0.parse()
+        r0, z0, l0 = ex0.get_data()
+        s0 = 'basic' if scope == 'extended' else 'extended'
+        g0 = 900 if s0 == 'basic' else 60
+        t0_ = Transformer(z0, r0, l0, s0, start_year, until_year, 60, g0, False)
+        t0_.transform()
+        d0 = t0_.get_data()
+        c0 = TzDbCollector(tz_version='verif', tz_files=Extractor.ZONE_FILES, scope=s0, start_year=start_year, until_year=until_year, until_at_granularity=60,
+                           offset_granularity=g0, strict=False, zones_map=d0[0], links_map=d0[2], rules_map=d0[1], removed_zones=d0[3], removed_links=d0[5],
+                           removed_policies=d0[4], notable_zones=d0[6], notable_links=d0[8], notable_policies=d0[7], format_strings=d0[9], zone_strings=d0[10])
+        tz0 = c0.get_data()
+        InlineGenerator(tz0['zones_map'], tz0['rules_map']).generate_maps()
     extractor = Extractor(input_dir)
     extractor.parse()
     rules_map, zones_map, links_map = extractor.get_data()
